@@ -506,7 +506,7 @@ theorem StatRel.sc {x : Nat} {ups : List Nat} {v0 v : World} (h : StatRel x ups 
     rcases hz with hz | hz
     · exact hs.source_up z hz
     · have hzl : z < v0.devs.length := kind_lt' (by rw [hz]; decide)
-      exact (hs.groupOK hzl).2.2 hz
+      exact (hs.groupOK hzl).2 hz
   · have hzl : z < v0.devs.length := by
       apply Nat.lt_of_not_le
       intro hc
@@ -675,7 +675,7 @@ theorem G.connectG {E N : List Nat} {v : World} (h : G E N [] v) (x u : Nat)
               unfold groupOut; rw [hw.field Dev.group (fun _ _ _ => rfl) u, hw.groups]
             have hul1 : u < v1.devs.length := by rw [hl1]; exact hul
             have hgpk1 : (v1.dev u).kind = .gpath := by rw [hk1]; exact hgp
-            obtain ⟨_, hgok, _⟩ := ((hsc1.groupOK hul1).2.1 hgpk1).2.2.2
+            obtain ⟨_, hgok, _⟩ := ((hsc1.groupOK hul1).1 hgpk1).2.2.2
             rw [hgo1] at hgok
             have hy1 : y ∈ (v1.dev d).down := by rw [hdne d hdu']; exact hy
             have hdlt1 : d < v1.devs.length := by rw [hl1]; exact hdlt
@@ -913,7 +913,7 @@ theorem sc_rewireWire {wa : World} (hs : SC wa) (x : Nat) (ups : List Nat) (hok 
     · rcases hz with hz | hz
       · exact hs.source_up z hz
       · have hzl : z < wa.devs.length := kind_lt' (by rw [hz]; decide)
-        exact (hs.groupOK hzl).2.2 hz
+        exact (hs.groupOK hzl).2 hz
   · have hy0 : y ∈ (wa.dev z).down := (hdn z).subset hy
     have hzl : z < wa.devs.length := by
       apply Nat.lt_of_not_le
@@ -992,7 +992,7 @@ theorem G.rewireD {E N : List Nat} {w : World} (h : G E N [] w) (x : Nat) (ups :
     rcases hz with hz | hz
     · exact hfin.source_up z hz
     · have hzl : z < wf.devs.length := kind_lt' (by rw [hz]; decide)
-      exact (hfin.groupOK hzl).2.2 hz
+      exact (hfin.groupOK hzl).2 hz
   · have hy0 := (hsub z).subset hy
     have hzl : z < wf.devs.length := by
       apply Nat.lt_of_not_le
